@@ -8,6 +8,8 @@ _cache = {}
 def get(name):
     if name in _cache:
         return _cache[name]
+    full = name
+    name = name.split("#")[0]          # 'alzr:tangent#ref' -> a second, independent instance of the same configuration
     from kawin.tests import datasets as D
     from kawin.thermo import GeneralThermodynamics, BinaryThermodynamics, MulticomponentThermodynamics
     so = sys.stdout
@@ -47,7 +49,7 @@ def get(name):
             raise KeyError(name)
     finally:
         sys.stdout = so
-    _cache[name] = t
+    _cache[full] = t
     return t
 
 
